@@ -713,6 +713,168 @@ def m_assign_targets(main_src):
         yield Mutant("binop-matmul", f"binop#{i}", _unparse(tree))
 
 
+ODD_ANNOTATIONS = [
+    "'int'", "'array[int, 2]'", "'qubit @owned'", "'undefined_fwd'", "'T'", "'array[T, n]'", "'main'",
+    "int | None", "tuple[int, ...]", "list[int]", "list[qubit]", "Callable[[int], int]", "Callable[..., int]",
+    "'Callable[[qubit @owned], None]'", "Callable", "'int @comptime'", "'qubit @comptime'",
+    "'array[qubit, 2] @comptime'", "'float @comptime'", "'int @owned @owned'", "'int @undefined_flag'",
+    "nat", "None", "type", "1", "(int, int)", "[int]", "'int.foo'", "Option[qubit]", "Option", "array",
+    "array[int]", "array[2, int]", "'array[int, 2, 3]'", "tuple", "tuple[()]", "str", "'array[int, -1]'",
+    "'array[int, 1.5]'", "'array[int, True]'", "'array[array, 2]'", "'tuple[int, qubit @owned]'", "'Option[int, int]'",
+    "'array[int, 2][0]'", "'lambda: int'", "'int if True else bool'", "'[int for _ in range(2)]'", "'f\"int\"'",
+]
+
+
+def m_odd_annotation(main_src):
+    fn0 = _fn(_parse_main(main_src))
+    n = len(_ann_nodes(fn0))
+    for i in range(n):
+        for alt in ODD_ANNOTATIONS:
+            tree = _parse_main(main_src)
+            owner, attr = _ann_nodes(_fn(tree))[i]
+            setattr(owner, attr, _expr(alt))
+            yield Mutant("odd-annotation", f"{i}:{alt}", _unparse(tree))
+
+
+SHADOW_FORMS = [
+    ("assign-int", "{p} = 0"), ("assign-float", "{p} = 1.5"), ("assign-qubit", "{p} = qubit()"),
+    ("assign-array", "{p} = array(1, 2)"), ("assign-none", "{p} = None"), ("assign-self", "{p} = {p}"),
+    ("for-target", "for {p} in range(2):\n    pass"), ("nested-def", "def {p}() -> None:\n    pass"),
+    ("walrus", "({p} := 1)"), ("unpack", "{p}, _u = 1, 2"), ("annassign", "{p}: float = 1.0"),
+    ("comprehension", "_c = array({p} for {p} in range(2))"), ("augassign", "{p} += 1"),
+    ("del", "del {p}"), ("tuple-self", "{p} = ({p}, {p})"), ("fn-value", "{p} = main"),
+    ("ifexp", "{p} = {p} if True else 0"),
+]
+
+
+def m_shadow_param(main_src):
+    fn0 = _fn(_parse_main(main_src))
+    params = _param_names(fn0)
+    bodies0 = _bodies(fn0)
+    for p in params:
+        for name, text in SHADOW_FORMS:
+            for bi in range(len(bodies0)):
+                tree = _parse_main(main_src)
+                owner, attr = _bodies(_fn(tree))[bi]
+                getattr(owner, attr)[0:0] = _stmts(text.replace("{p}", p))
+                yield Mutant("shadow-param", f"{p}:{name}@{bi}", _unparse(tree))
+
+
+SIG_FORMS = ["default", "vararg", "kwarg", "kwonly", "posonly", "no-ann", "no-ret", "self", "builtin-name",
+             "gate-name", "underscore", "dup-type-param", "async", "extra-decorator", "ret-none", "ret-str"]
+
+
+def m_signature(main_src):
+    for form in SIG_FORMS:
+        tree = _parse_main(main_src)
+        fn = _fn(tree)
+        a = fn.args
+        if form == "default":
+            if not a.args:
+                continue
+            a.defaults = [ast.Constant(1)]
+        elif form == "vararg":
+            a.vararg = ast.arg("rest", _expr("int"))
+        elif form == "kwarg":
+            a.kwarg = ast.arg("kws", _expr("int"))
+        elif form == "kwonly":
+            if not a.args:
+                continue
+            a.kwonlyargs, a.kw_defaults, a.args = [a.args[-1]], [None], a.args[:-1]
+        elif form == "posonly":
+            if not a.args:
+                continue
+            a.posonlyargs, a.args = a.args[:1], a.args[1:]
+        elif form == "no-ann":
+            if not a.args:
+                continue
+            a.args[-1].annotation = None
+        elif form == "no-ret":
+            fn.returns = None
+        elif form == "self":
+            a.args.insert(0, ast.arg("self", None))
+        elif form == "builtin-name":
+            a.args.append(ast.arg("int", _expr("int")))
+        elif form == "gate-name":
+            a.args.append(ast.arg("h", _expr("int")))
+        elif form == "underscore":
+            a.args.append(ast.arg("_", _expr("qubit")))
+        elif form == "dup-type-param":
+            fn.type_params = list(getattr(fn, "type_params", [])) + [ast.TypeVar("T2", None), ast.TypeVar("n2", _expr("nat"))]
+        elif form == "async":
+            tree.body[0] = ast.AsyncFunctionDef(**{f: getattr(fn, f) for f in fn._fields})
+        elif form == "extra-decorator":
+            fn.decorator_list.append(_expr("staticmethod"))
+        elif form == "ret-none":
+            fn.returns = _expr("None")
+        elif form == "ret-str":
+            fn.returns = _expr("'int'")
+        yield Mutant("signature", form, _unparse(tree))
+
+
+def m_wrap_comprehension(main_src):
+    slots = lambda fn: [s for s in _expr_slots(fn) if s[1] in ("value", "args")]  # noqa: E731
+    n = len(slots(_fn(_parse_main(main_src))))
+    for i in range(n):
+        for form in ("array({e} for _k in range(2))[0]", "array({e} for _k in range(2))",
+                     "array(array({e} for _j in range(1))[0] for _k in range(2))[0]",
+                     "({e} if True else {e})", "(_w := {e})", "({e},)[0]", "(lambda: {e})()"):
+            tree = _parse_main(main_src)
+            owner, attr, k = slots(_fn(tree))[i]
+            cur = getattr(owner, attr) if k is None else getattr(owner, attr)[k]
+            new = _expr(form.replace("{e}", "(" + ast.unparse(cur) + ")"))
+            if k is None:
+                setattr(owner, attr, new)
+            else:
+                getattr(owner, attr)[k] = new
+            yield Mutant("wrap-expr", f"slot#{i}:{form[:14]}", _unparse(tree))
+
+
+def m_explicit_type_args(main_src):
+    pred = lambda n: isinstance(n, ast.Call) and isinstance(n.func, ast.Name)  # noqa: E731
+    n = _count(_fn(_parse_main(main_src)), pred)
+    for i in range(n):
+        for targs in ("int", "int, 2", "qubit", "()", "2", "undefined_ty", "array[int, 2]", "int, int, int"):
+            tree = _parse_main(main_src)
+            node = _nth(_fn(tree), pred, i)
+            node.func = _expr(f"{node.func.id}[{targs}]")
+            yield Mutant("explicit-type-args", f"call#{i}:[{targs}]", _unparse(tree))
+
+
+POSTFIX = ["{v}.nope", "{v}[0]", "{v}()", "{v}.copy()", "-{v}", "not {v}", "{v} @ owned", "{v}.q", "{v}[0][0]",
+           "{v}.__class__", "{v}.__add__", "{v}[{v}]", "({v}, {v})", "{v} + {v}", "{v} < {v}", "{v} and {v}"]
+
+
+def m_postfix(main_src):
+    pred = lambda n: isinstance(n, ast.Name) and isinstance(n.ctx, ast.Load)  # noqa: E731
+    fn0 = _fn(_parse_main(main_src))
+    skip = {id(n) for d in fn0.decorator_list for n in ast.walk(d)}
+    for o, a in _ann_nodes_all(fn0):
+        skip.update(id(n) for n in ast.walk(getattr(o, a)))
+    idxs = [i for i in range(_count(fn0, pred)) if id(_nth(fn0, pred, i)) not in skip]
+    for i in idxs:
+        for form in POSTFIX:
+            tree = _parse_main(main_src)
+            node = _nth(_fn(tree), pred, i)
+            _ReplaceNode(node, _expr(form.replace("{v}", node.id))).visit(tree)
+            yield Mutant("postfix", f"name#{i}:{form}", _unparse(tree))
+
+
+def _ann_nodes_all(fn):
+    out = []
+    for node in ast.walk(fn):
+        if isinstance(node, ast.arg) and node.annotation is not None:
+            out.append((node, "annotation"))
+        elif isinstance(node, ast.FunctionDef) and node.returns is not None:
+            out.append((node, "returns"))
+        elif isinstance(node, ast.AnnAssign):
+            out.append((node, "annotation"))
+    return out
+
+
+CONTEXT_OPERATORS = [m_odd_annotation, m_shadow_param, m_signature, m_wrap_comprehension,
+                     m_explicit_type_args, m_postfix]
+
 SITE_OPERATORS = [m_rename_use, m_stmt_ops, m_retype, m_call_args, m_unreachable, m_wrap_nested,
                   m_type_args, m_literals, m_assign_targets]
 
@@ -732,10 +894,11 @@ def mutants_of(main_src, insertion: str):
                 seen.add(m.main_src)
                 yield m
     if insertion == "all":
-        for m in m_replace_expr(main_src):
-            if m.main_src not in seen:
-                seen.add(m.main_src)
-                yield m
+        for opf in [m_replace_expr, *CONTEXT_OPERATORS]:
+            for m in opf(main_src):
+                if m.main_src not in seen:
+                    seen.add(m.main_src)
+                    yield m
 
 
 # -------------------------------------------------------------------------- oracle
